@@ -94,7 +94,16 @@ const (
 )
 
 // TypeCheck classifies a program by the documented typing rules.
-func TypeCheck(p []*gripql.GraphStatement) string {
+func TypeCheck(p []*gripql.GraphStatement) string { return typeCheck(p, false) }
+
+// TypeCheckExt is TypeCheck with the steps the reference also models but the
+// bounded enumeration does not contain: the *Null moves (followed by count or
+// by select of one earlier mark only; anything else after a null traveler is
+// judged for crashes by C06, not for content) and unwind.
+func TypeCheckExt(p []*gripql.GraphStatement) string { return typeCheck(p, true) }
+
+func typeCheck(p []*gripql.GraphStatement, ext bool) string {
+	null := false // a *Null move happened and no select has replaced the current element yet
 	typ := ""
 	marks := map[string]string{}
 	weak := false  // a truncation or distinct(field) happened: only truncations/count may follow (model limit)
@@ -131,6 +140,27 @@ func TypeCheck(p []*gripql.GraphStatement) string {
 				}
 			}
 			verdict = OutsideModel
+		}
+		if null {
+			switch x := s.Statement.(type) {
+			case *gripql.GraphStatement_Count:
+				if i == len(p)-1 {
+					typ = "count"
+					continue
+				}
+			case *gripql.GraphStatement_Select:
+				if len(x.Select.Marks) == 1 {
+					if t, ok := marks[x.Select.Marks[0]]; ok && !noHist {
+						typ = t
+						null = false
+						continue
+					}
+				}
+			}
+			if verdict == WellTyped {
+				verdict = OutsideModel
+			}
+			continue
 		}
 		// references to marks that were never defined: the documentation is silent
 		for _, ref := range markRefs(s) {
@@ -224,6 +254,26 @@ func TypeCheck(p []*gripql.GraphStatement) string {
 			typ = "count"
 		case *gripql.GraphStatement_Limit, *gripql.GraphStatement_Skip, *gripql.GraphStatement_Range:
 			weak = true
+		case *gripql.GraphStatement_OutNull, *gripql.GraphStatement_InNull, *gripql.GraphStatement_OutENull, *gripql.GraphStatement_InENull:
+			if !ext || typ != "vertex" {
+				if verdict == WellTyped {
+					verdict = OutsideModel
+				}
+				continue
+			}
+			switch x.(type) {
+			case *gripql.GraphStatement_OutENull, *gripql.GraphStatement_InENull:
+				typ = "edge"
+			}
+			null = true
+		case *gripql.GraphStatement_Unwind:
+			if !ext || !elem() {
+				if verdict == WellTyped {
+					verdict = OutsideModel
+				}
+				continue
+			}
+			noPath = true
 		default:
 			if verdict == WellTyped {
 				verdict = OutsideModel
